@@ -31,8 +31,10 @@ def simple_graph(n, mask, as_nx=False):
         # vertices in listing order, so vertex v is the v-th node added -- whatever order the sortable ones are in
         import networkx
         G = networkx.Graph()
-        pool = [7, 3, "a", 5, (1, 2), 1, "b", 9, 2.5, "c"]
-        lab = lambda v: pool[v - 1] if v <= len(pool) else "v%d" % v
+        # (numbers that start in order, then one out of order, then something no number compares with: a sort that
+        # gives up half-way would leave them rearranged)
+        pool = [4, 9, 6, 1, 8, 3, 12, 5, 10, 2]
+        lab = lambda v: "z" if v == n else (1, 2) if v == n - 3 and n >= 6 else pool[v - 1] if v <= len(pool) else 100 - v
         G.add_nodes_from(lab(v) for v in range(1, n + 1))
         G.add_edges_from((lab(v), lab(u)) for u, v in reversed(E))
         return G, E
@@ -215,6 +217,38 @@ def check_sampled(ctx, fam, desc, F, good, bad, key):
     ctx.count("sampled_cases")
     ctx.judged(key, sample={"family": fam, "case": desc, "variables": F.number_of_variables(), "mode": "sampled"})
     return ok
+
+
+def same_in_optimized_interpreter(ctx, fam, desc, expr, seed, F):
+    """`expr` (an expression over the name g = the cnfgen package, evaluated after random.seed(seed)) built in a child
+    interpreter started with -O must be the formula F built here: statements compiled away by -O (assert, if __debug__)
+    are no part of a generator.  Used where the reference for a family does not cover every clause."""
+    import hashlib
+    import subprocess
+    import sys
+    from . import REPO
+    code = ("import sys, random, hashlib, warnings; warnings.simplefilter('ignore'); sys.path.insert(0, %r); import cnfgen as g; "
+            "from cnfgen.formula.cnf import CNF; from cnfgen.formula.opb import OPB; random.seed(%r); F = %s; "
+            "print(sys.flags.optimize, F.number_of_variables(), len(F), "
+            "hashlib.sha1(repr([list(c) for c in F]).encode()).hexdigest(), hashlib.sha1(repr(list(F.all_variable_labels())).encode()).hexdigest())"
+            % (REPO, seed, expr))
+    try:
+        p = subprocess.run([sys.executable, "-O", "-c", code], capture_output=True, text=True, timeout=300)
+    except subprocess.TimeoutExpired:
+        ctx.problems.append({"kind": "spawn-failed", "case": ctx.case, "traceback": "python -O child timed out"})
+        return
+    ctx.count("built_again_under_python_O")
+    if p.returncode != 0:
+        ctx.violation("%s:python-O:raises" % fam, "%s: in an interpreter started with -O: %s" % (desc, p.stderr.strip().splitlines()[-1:] or p.stderr[-200:]))
+        return
+    opt, nv, m, hc, hl = p.stdout.split()
+    mine = (str(F.number_of_variables()), str(len(F)), hashlib.sha1(repr([list(c) for c in F]).encode()).hexdigest(),
+            hashlib.sha1(repr(list(F.all_variable_labels())).encode()).hexdigest())
+    if opt == "0":
+        ctx.problems.append({"kind": "harness-error", "case": ctx.case, "traceback": "the -O child did not run optimized"})
+    elif (nv, m, hc, hl) != mine:
+        ctx.violation("%s:python-O:another-formula" % fam, "%s: an interpreter started with -O builds %s variables / %s clauses%s, this one %s / %s"
+                      % (desc, nv, m, "" if (nv, m) != mine[:2] else " (other clauses or names)", mine[0], mine[1]))
 
 
 # ---------------------------------------------------------------- histories on one graph object
